@@ -252,7 +252,8 @@ def panics_to_obligations(src, log, sites):
         elif name == "assert":
             rep = "verif_assert(%s)" % args[0]
         elif name == "assert_ne":
-            rep = "verif_assert((%s) != (%s))" % (args[0], args[1])
+            # core's assert_ne! expands to `if *left == *right { panic }`: it calls `==`, not `!=`
+            rep = "verif_assert(!((%s) == (%s)))" % (args[0], args[1])
         else:
             rep = "verif_assert((%s) == (%s))" % (args[0], args[1])
         out.append(rep)
